@@ -4,6 +4,7 @@ Model: FeedVerif/Model/Mixin.lean (stage 1).  Entries are kept newest first, so 
 entries" of the Python list are a SUFFIX of `entries`.
 -/
 import FeedVerif.Model.Mixin
+import FeedVerif.Lemmas.Mixin
 
 namespace FeedVerif.Mixin
 
@@ -119,11 +120,13 @@ theorem dispatch_older (s : Core) (h : Str) (attrsD : List (Str × Str)) (c' : C
               · rw [setContext_older]; exact newEntry_older s _ rfl rfl
             · exact newEntry_older s _ rfl rfl
     · split at hd
-      · cases hd
-      · simp only at hd
-        split at hd
-        · injection hd with hd; injection hd with h1 _; exact ⟨[], by rw [← h1]; simp⟩
-        · injection hd with hd; injection hd with h1 _; exact ⟨[], by rw [← h1, setContext_older]; simp⟩
+      · injection hd with hd; injection hd with h1 _; exact ⟨[], by rw [← h1]; simp⟩
+      · split at hd
+        · cases hd
+        · simp only at hd
+          split at hd
+          · injection hd with hd; injection hd with h1 _; exact ⟨[], by rw [← h1]; simp⟩
+          · injection hd with hd; injection hd with h1 _; exact ⟨[], by rw [← h1, setContext_older]; simp⟩
 
 theorem endFinish_older (o : Ops) (c : Core) : older (endFinish o c) = older c := rfl
 
@@ -164,8 +167,12 @@ theorem step_older (o : Ops) (s : MSt) (e : MEv) (s' : MSt) (h : mstep o s e = .
           simp only [hin', Bool.false_eq_true, ↓reduceIte, hp.2] at hp ⊢
           exact ⟨[], by simpa using hp.1⟩
       · split at h
-        · cases h
-        · injection h with h; rw [← h]; exact ⟨[], by simp [endFinish_older, (pop_older o s _).1]⟩
+        · -- a simple date element: pop, then `_save(K_parsed, …)` in the current context
+          injection h with h; rw [← h]
+          exact ⟨[], by simp [endFinish_older, setContext_older, (pop_older o s _).1]⟩
+        · split at h
+          · cases h
+          · injection h with h; rw [← h]; exact ⟨[], by simp [endFinish_older, (pop_older o s _).1]⟩
   | data t =>
     simp only [mstep] at h
     injection h with h
